@@ -10,6 +10,7 @@ Used by the account selectors (C11) and by the regex leaves of transaction filte
 | `Regex.search`, `Regex.full`           | executable matcher (theorems `C11.matcher_sound`, `C11.full_sound`)  |
 | `Regex.wrapStr` / `wrapChars`          | `tackler_rs::regex::into_full_haystack_pattern`                      |
 | `Regex.peelStr` / `peelChars`          | `tackler_rs::regex::peel_full_haystack_pattern`                      |
+| `Regex.peeledPatterns`                 | `peeled_patterns` (and `peeled_pattern`) over the stored wrapped texts |
 | `Regex.wrapAst`                        | what `^(?:p)$` means when `p` means `r` (theorem `C11.parse_wrap`)   |
 | `Regex.newFullHaystack`, `newFullHaystackSet`, `setIsMatch` | `new_full_haystack_regex`, `new_full_haystack_regex_set`, `RegexSet::is_match` |
 
@@ -422,6 +423,10 @@ def peelChars (re : List Char) : List Char :=
   | none => re
 
 def peelStr (re : String) : String := String.ofList (peelChars re.toList)
+
+/-- `peeled_patterns(&RegexSet)` / `peeled_pattern(&Regex)`: a compiled full-haystack regex keeps the wrapped
+    text (`as_str`, `patterns()`), which is peeled on the way out -/
+def peeledPatterns (wrapped : List String) : List String := wrapped.map peelStr
 
 /-- the meaning of `^(?:p)$` when `p` means `r` -/
 def wrapAst (r : Regex) : Regex := .seq .bol (.seq (.group r) .eol)
